@@ -34,6 +34,21 @@ CLAIMED = {
         'well-formedness oracle; names are XML Names and text is XML 1.0 Char by hypothesis; disable_whitespace '
         'mode not modelled.',
    ref='DESIGN.md §4 C20'),
+ 'C13': dict(
+   technique='Coq proof over a model of _enum_common_prefix/_create_enum/_create_const with the wrap table regenerated from source + in-Coq correspondence through the real Transformer/GIRWriter',
+   text='Theorems (Coq, axiom-free): for every enumeration whose members have non-empty words and none is a '
+        'word-prefix of another, the prefix cut is exactly the shared whole words + "_" (none when no word is shared), '
+        'each emitted name is the lower-cased rest of the words, or the namespace-stripped identifier when nothing is '
+        'shared (C13_prefix_whole_words, C13_names_shared, C13_rest_of_words, C13_names_unshared); for every input the '
+        'public members appear in declaration order with exact values and identifiers (C13_order_and_values); constants '
+        'of guint8/16/32/64 lie in [0,2^w) and are congruent to the declared value, others are as written, for all '
+        'integers, with the modulus table regenerated from _create_const on every run (C13_const_*). Tie: translator '
+        '(wrap table) + correspondence of member lists and constant values through Transformer.parse and GIRWriter; '
+        'the executable property is judged on the real outputs. Two defects found and fixed (see known-findings.json).',
+   note='Trusted: Coq kernel+VM; translate/gen_c13.py (Python-ast walk of _create_const); the stub lexer (const_int, '
+        'is_bitfield, private are inputs); ASCII identifiers; single namespace without includes for the namespace-prefix '
+        'case; platform-width unsigned types (guint, gulong, gsize) are emitted as written and not range-checked.',
+   ref='DESIGN.md §4 C13'),
 }
 
 PLANNED = {}
